@@ -11,7 +11,7 @@ HARNESSES = [
     bounds='%s attribute; text in {"$,"  ","  " $ )"  " )"}; OPTIONAL and strict flags symbolic' % KN[k],
     samples=[{'optional': 0, 'strict': 0, 'form': 0}, {'optional': 1, 'strict': 0, 'form': 1}, {'optional': 0, 'strict': 1, 'form': 2}, {'optional': 0, 'strict': 0, 'form': 3}],
     stubs=['vstd model', 'ErrorDescriptor messages dropped', 'owner EntityDescriptor: raw storage (never dereferenced)', 'callees of the SELECT / ENTITY / aggregate / undefined branches of STEPread/STEPwrite/set_null are left without body: those branches are not taken for the five kinds driven here'],
-    timeout={'quick': 600, 'thorough': 1800},
+    timeout={'quick': 900, 'thorough': 2700},
     allow_undef=['_Z13ReadEntityRefRSt7istreamP15ErrorDescriptorPKcP11InstMgrBasei', '_Z16EntityValidLevelP25SDAI_Application_instancePK14TypeDescriptorP15ErrorDescriptor', '_ZN11SDAI_Select5ErrorEv', '_ZN11SDAI_Select7is_nullEv', '_ZN11SDAI_Select8STEPreadERSt7istreamP15ErrorDescriptorP11InstMgrBasePKciS7_', '_ZN11SDAI_Select8set_nullEv', '_ZN12SCLundefined7is_nullEv', '_ZN12SCLundefined8set_nullEv', '_ZN16Where_rule__listD1Ev', '_ZN25SDAI_Application_instance19STEPwrite_referenceERSt7ostream', '_ZNK11SDAI_Select9STEPwriteERSt7ostreamPKc', '_ZNK9SchRename6renameEPKcPc', '_ZN12SCLundefined8STEPreadERSt7istreamP15ErrorDescriptorPKc', '_ZN12SCLundefined9STEPwriteERSt7ostream', '_ZN13STEPaggregate8STEPreadERSt7istreamP15ErrorDescriptorPK14TypeDescriptorP11InstMgrBaseiPKc', '_ZNK13STEPaggregate9STEPwriteERSt7ostreamPKc', '_ZN13STEPaggregate5EmptyEv'],
     out_of_claim='how STEPfile maps USERMSG/INCOMPLETE to the file verdict and exit status, inherited attributes, complex parts, derived/redefined attributes') for k in (0, 1, 2, 3, 4, 5, 6)
 ]
